@@ -15,3 +15,5 @@ def run(prog, rep):
     r_mbt.run(prog, rep, val_ok)
     from ..rules import r_order as _ro
     _ro.run_name_first(prog, rep)
+    from ..rules import r_key as _rk3
+    _rk3.run_handles_only(prog, rep)
